@@ -215,6 +215,13 @@ def gen_cases(ctx):
             c["alternatives"], c["criteria"], c["labels"] = a, k, kind
         elif t < 0.3:
             gen.narrow_dtypes(ctx.rng, c)
+        elif t < 0.36:
+            # an all-integer matrix whose values no float can tell apart (identifiers, nanosecond timestamps):
+            # exact Python integers in the case, int64 in the matrix
+            base = ctx.rng.choice([2 ** 53, 1_700_000_000_000_000_000, -(2 ** 60)])
+            c["matrix"] = [[base + ctx.rng.choice([0, 1, 2, 3]) for _ in r] for r in c["matrix"]]
+            c["dtypes"] = ["int64"] * len(c["weights"])
+            c["mode"] = "int_beyond_2^53"
         cases.append(c)
     return cases
 
